@@ -52,7 +52,7 @@ def one(sid):
             rc, o = sh(f"./vcheck run {p} --tier quick -v", cwd=VERIF, env=env)
             viol = [l for l in o.splitlines() if l.startswith("VIOLATION")]
             obl = sorted(set(re.findall(r"(numpoly\.[^\s,;]+#[^\s,;]+|C\d\d\.[a-z_]+\.[^\s,;]+)", "\n".join(
-                l for l in o.splitlines() if "obligation" in l))))
+                l for l in o.splitlines() if "obligation" in l and not l.startswith("KNOWN-FINDING")))))
             clauses = sorted(set(re.findall(r"run-time contract clause (\S+)", o)))
             undec = [l.split("function=")[1].split()[0] for l in o.splitlines() if l.startswith("UNDECIDED-BY-PROOF")]
             out[p] = dict(exit=rc, violations=len(viol), no_input=sum("no-failing-input-found" in v for v in viol),
